@@ -4,116 +4,106 @@
    A record is a JSON value; an argument of redact is the text  p0.json()p1.json()...pn  with an
    optional  .xml()xp  inside a piece.  jp.ParseString (ojg) is a library: the model takes the
    pieces already parsed into the fragments that redact can build (child, index, wildcard,
-   descent).  The nested-document libraries are oracles (Section variables):
+   descent).  jp.Expr.Get is modelled by [jmatches], which returns every match with its location:
+   Go holds pointers into the live tree (the parents that setMatches mutates), the model holds
+   locations and writes through them in the same order; a write below a subtree that an earlier
+   write replaced is lost in both.  The nested-document libraries are oracles (Section variables):
      parse / render        oj.ParseString / oj.JSON
      b64d / b64e           base64.StdEncoding Decode / Encode
      xml_redact            redactXml as a whole (mxj NewMapXml, ValuesForPath, SetValueForPath, Xml)
    No proofs in this file. *)
-Require Import V.Base.Prelude V.KflText.Macro.
+Require Import V.Base.Prelude V.KflText.Macro V.KflText.RJv.
 Local Open Scope bool_scope.
 
-Inductive jv :=
-| JNull
-| JBool (b : bool)
-| JNum (z : Z)
-| JStr (s : bytes)
-| JArr (l : list jv)
-| JObj (kvs : list (bytes * jv)).
+(* ---- jp.Expr.Get for these fragments: (location, value) of every match, document order ---- *)
+Definition shift (s : step) (m : loc * jv) : loc * jv := (s :: fst m, snd m).
 
-Inductive frag :=
-| Child (k : bytes)      (* .k  ['k'] *)
-| Nth (i : Z)            (* [i], negative from the end *)
-| Wild                   (* [*]  .* *)
-| Desc.                  (* .. *)
+Fixpoint indexed (i : nat) (l : list jv) : list (step * jv) :=
+  match l with
+  | [] => []
+  | c :: r => (SIdx i, c) :: indexed (S i) r
+  end.
 
-(* [REDACTED] *)
-Definition REDACTED : bytes := bs [91;82;69;68;65;67;84;69;68;93]%N.
-
-(* ---- jp.Expr.Get for these fragments (values, document order) ---- *)
-Definition children (v : jv) : list jv :=
+(* the members of a container with the step that leads to them *)
+Definition members (v : jv) : list (step * jv) :=
   match v with
-  | JArr l => l
-  | JObj kvs => map snd kvs
+  | JArr l => indexed 0 l
+  | JObj kvs => map (fun kv => (SKey (fst kv), snd kv)) kvs
   | _ => []
   end.
 
-Fixpoint lookup (k : bytes) (kvs : list (bytes * jv)) : option jv :=
-  match kvs with
-  | [] => None
-  | (k', v) :: r => if bytes_eqb k k' then Some v else lookup k r
+(* the node itself and all its descendants *)
+Fixpoint nodes (v : jv) : list (loc * jv) :=
+  ([], v) ::
+  match v with
+  | JArr l => (fix go (i : nat) (l : list jv) : list (loc * jv) :=
+                 match l with
+                 | [] => []
+                 | c :: r => map (shift (SIdx i)) (nodes c) ++ go (S i) r
+                 end) 0%nat l
+  | JObj kvs => flat_map (fun kv => map (shift (SKey (fst kv))) (nodes (snd kv))) kvs
+  | _ => []
   end.
 
-Definition norm_index (i : Z) (len : nat) : option nat :=
-  let i' := if (i <? 0)%Z then (i + Z.of_nat len)%Z else i in
-  if ((0 <=? i') && (i' <? Z.of_nat len))%Z then Some (Z.to_nat i') else None.
-
-(* the node itself and all its descendants *)
-Fixpoint descendants (v : jv) : list jv :=
-  v :: match v with
-       | JArr l => flat_map descendants l
-       | JObj kvs => flat_map (fun kv => descendants (snd kv)) kvs
-       | _ => []
-       end.
-
-Definition step_get (f : frag) (v : jv) : list jv :=
+Definition step_matches (f : frag) (v : jv) : list (loc * jv) :=
   match f with
-  | Child k => match v with JObj kvs => match lookup k kvs with Some c => [c] | None => [] end | _ => [] end
+  | Child k => match v with
+               | JObj kvs => match lookup k kvs with Some c => [([SKey k], c)] | None => [] end
+               | _ => []
+               end
   | Nth i => match v with
-             | JArr l => match norm_index i (length l) with Some n => match nth_error l n with Some c => [c] | None => [] end | None => [] end
+             | JArr l => match norm_index i (length l) with
+                         | Some n => match nth_error l n with Some c => [([SIdx n], c)] | None => [] end
+                         | None => []
+                         end
              | _ => []
              end
-  | Wild => children v
-  | Desc => descendants v
+  | Wild => map (fun m => ([fst m], snd m)) (members v)
+  | Desc => nodes v
   end.
 
-Fixpoint jget (fs : list frag) (v : jv) : list jv :=
+Fixpoint jmatches (fs : list frag) (v : jv) : list (loc * jv) :=
   match fs with
-  | [] => [v]
-  | f :: rest => flat_map (jget rest) (step_get f v)
+  | [] => [([], v)]
+  | f :: rest => flat_map (fun m => map (fun m' => (fst m ++ fst m', snd m')) (jmatches rest (snd m))) (step_matches f v)
   end.
 
-(* ---- setMatches: the value goes to every existing location that the path denotes ---- *)
-Definition map_key (k : bytes) (g : jv -> jv) (kvs : list (bytes * jv)) : list (bytes * jv) :=
-  map (fun kv => if bytes_eqb k (fst kv) then (fst kv, g (snd kv)) else kv) kvs.
-
-Fixpoint map_nth (n : nat) (g : jv -> jv) (l : list jv) : list jv :=
+(* ---- writing through a location (only if it exists) ---- *)
+Fixpoint set_nth (n : nat) (g : jv -> jv) (l : list jv) : list jv :=
   match l, n with
   | [], _ => []
   | x :: r, O => g x :: r
-  | x :: r, S n' => x :: map_nth n' g r
+  | x :: r, S n' => x :: set_nth n' g r
   end.
 
-Definition map_children (g : jv -> jv) (v : jv) : jv :=
-  match v with
-  | JArr l => JArr (map g l)
-  | JObj kvs => JObj (map (fun kv => (fst kv, g (snd kv))) kvs)
-  | _ => v
-  end.
+(* a Go map has one entry per key *)
+Definition set_key (k : bytes) (g : jv -> jv) (kvs : list (bytes * jv)) : list (bytes * jv) :=
+  map (fun kv => if bytes_eqb k (fst kv) then (fst kv, g (snd kv)) else kv) kvs.
 
-Fixpoint setm (x : jv) (fs : list frag) : jv -> jv :=
-  match fs with
-  | [] => fun _ => x
-  | f :: rest =>
-      let k := setm x rest in
-      match f with
-      | Child key => fun v => match v with JObj kvs => JObj (map_key key k kvs) | _ => v end
-      | Nth i => fun v => match v with
-                          | JArr l => match norm_index i (length l) with Some n => JArr (map_nth n k l) | None => v end
-                          | _ => v
-                          end
-      | Wild => map_children k
-      | Desc => fix go (v : jv) : jv :=
-                  k match v with
-                    | JArr l => JArr (map go l)
-                    | JObj kvs => JObj (map (fun kv => (fst kv, go (snd kv))) kvs)
-                    | _ => v
-                    end
+Fixpoint set_at (x : jv) (l : loc) (v : jv) : jv :=
+  match l with
+  | [] => x
+  | s :: l' =>
+      match s, v with
+      | SKey k, JObj kvs => JObj (set_key k (set_at x l') kvs)
+      | SIdx n, JArr xs => JArr (set_nth n (set_at x l') xs)
+      | _, _ => v
       end
   end.
 
-(* one ".json()"-separated piece of an argument: its JSON path and, if the piece contains
-   ".xml()", the text that follows it *)
-Record seg := { sjp : list frag; sxml : option bytes }.
+(* The paths the model covers: not empty (jp.Expr.Get of an empty expression returns nothing) and
+   not ending in a descent (setMatches hands those to jp.Expr.Set, which is not modelled).
+   redact_rec reports an error for any other path, so that the limitation is explicit. *)
+Fixpoint path_ok (fs : list frag) : bool :=
+  match fs with
+  | [] => false
+  | [f] => match f with Desc => false | _ => true end
+  | _ :: r => path_ok r
+  end.
+
+(* setMatches(obj, jsonPath, value): the matches are looked up first, then written one by one *)
+Definition setm (x : jv) (fs : list frag) (v : jv) : jv :=
+  fold_left (fun acc m => set_at x (fst m) acc) (jmatches fs v) v.
 
 Section Oracles.
   Variable parse : bytes -> option jv.
@@ -127,9 +117,10 @@ Section Oracles.
     match paths with
     | [] => Some obj
     | p :: rest =>
-        match jget (sjp p) obj with
+        if negb (path_ok (sjp p)) then None else
+        match jmatches (sjp p) obj with
         | [] => None                                       (* "No match" *)
-        | r0 :: _ =>
+        | (_, r0) :: _ =>
             match sxml p with
             | Some xp =>
                 match r0 with
@@ -141,7 +132,7 @@ Section Oracles.
                 end
             | None =>
                 match rest with
-                | [] => Some (setm (JStr REDACTED) (sjp p) obj)
+                | [] => Some (setm MARK (sjp p) obj)
                 | _ :: _ =>
                     match r0 with
                     | JStr s =>
@@ -165,8 +156,5 @@ Section Oracles.
 
   (* redact(args...): every argument in turn; an argument that fails is skipped *)
   Definition redact_model (obj : jv) (args : list (list seg)) : jv :=
-    fold_left (fun o a => match a with
-                          | [] => o
-                          | _ => match redact_rec o a with Some o' => o' | None => o end
-                          end) args obj.
+    fold_left (fun o a => match redact_rec o a with Some o' => o' | None => o end) args obj.
 End Oracles.
